@@ -248,6 +248,9 @@ struct varint_parser : x3::parser<varint_parser> {
                 bit_shift += 7;
             }
             else {
+                // the encoded value must use the minimum number of bytes
+                if (val == 0 && bit_shift != 0)
+                    return false;
                 result |= (static_cast<int32_t>(val) << bit_shift);
                 bit_shift = 0;
                 break;
